@@ -47,6 +47,66 @@ def _place_path(v, depth=0):
     return None
 
 
+def _mir_context_depth_query(F, fn):
+    """a `&self -> bool` method of SymbolTable that only looks at how many contexts are open (`contexts.len() > 1`,
+    `matches!(contexts.as_slice(), [_, _, ..])`): its answer inside a function (two or more contexts) and outside (one), as a
+    function q(in_function) -> bool; None when the method looks at anything else"""
+    from mirlib import AbsInt
+    from rules.shared import int_of, truth
+    from mirlib import uncast, is_binop
+
+    def is_ctx_len(v):
+        v = uncast(v)
+        if not isinstance(v, tuple) or not v:
+            return False
+        if v[0] == 'unop' and v[1] == 'PtrMetadata':
+            return 'contexts' in str(v[2]) or '_1.*.f0' in str(v[2])
+        if v[0] == 'call' and v[1].endswith('::len') and v[2]:
+            return 'contexts' in str(v[2][0]) or '_1.*.f0' in str(v[2][0])
+        return False
+    fields = F.adt('symbols::SymbolTable')['variants'][0]['fields']
+    if not fields or fields[0]['name'] != 'contexts':
+        return None
+    answers = {}
+    try:
+        paths = AbsInt(F, fn, max_paths=200).run()
+    except Exception:
+        return None
+    for depth in (1, 2, 3):
+        got = set()
+        for p in paths:
+            if p.exit != 'return':
+                continue
+            r = p.env.get('_0')
+            if not (isinstance(r, tuple) and r and r[0] == 'int'):
+                return None
+            ok = True
+            for k in p.constraints:
+                if k[0][0] != 'switch':
+                    return None
+                v = k[0][1]
+                if not is_binop(v) or v[1] not in ('Ge', 'Gt', 'Le', 'Lt', 'Eq', 'Ne'):
+                    return None
+                if is_ctx_len(v[2]) and int_of(v[3]) is not None:
+                    a, b = depth, int_of(v[3])
+                elif is_ctx_len(v[3]) and int_of(v[2]) is not None:
+                    a, b = int_of(v[2]), depth
+                else:
+                    return None
+                val = {'Ge': a >= b, 'Gt': a > b, 'Le': a <= b, 'Lt': a < b, 'Eq': a == b, 'Ne': a != b}[v[1]]
+                if val != bool(truth(k)):
+                    ok = False
+                    break
+            if ok:
+                got.add(bool(r[1]))
+        if len(got) != 1:
+            return None
+        answers[depth] = next(iter(got))
+    if answers[2] != answers[3]:
+        return None         # it distinguishes one open function from two: not a plain `inside a function?` query
+    return lambda in_function: answers[2] if in_function else answers[1]
+
+
 def _mir_symtab_effects(F, c):
     """What a method of SymbolTable does, read from its MIR (helpers spliced in) when its source is not one of the spellings the
     syntactic pass knows: a `&mut self` method that cuts `contexts` back to 1, the scopes of contexts[0] back to 1 and the names of
@@ -91,6 +151,10 @@ def _mir_symtab_effects(F, c):
                         what.add('definitions')
             if what:
                 c.symtab_reset[name] = set(c.symtab_reset.get(name, ())) | what
+        if not is_mut and ty1.startswith('&') and fn.arg_count == 1 and name not in c.symtab_bool and (fn.local_ty(0) or '') == 'bool':
+            q = _mir_context_depth_query(F, fn)
+            if q is not None:
+                c.symtab_bool[name] = q
         if not is_mut and ty1.startswith('&') and fn.arg_count == 1 and name not in c.symtab_pure and name not in c.symtab_bool and name not in ('resolve',):
             lens_ = []
             other = []
